@@ -227,8 +227,9 @@ def check(ctx):
                 "fit_margin_outlier_model": True, "fit_turnout_outlier_model": True, "outlier_z_threshold": 2.0}
     for p, d in defaults.items():
         t = bound.get(p)
-        okb = (t is not None and t[0] == "call" and t[1] == ("attr", ("param", "model_parameters"), "get") and len(t[2]) == 2
-               and t[2][0] == ("const", p))
+        # (the settings may be read from a private copy of model_parameters to which other keys have been added)
+        okb = (t is not None and t[0] == "call" and t[1][0] == "attr" and t[1][2] == "get" and len(t[2]) == 2 and t[2][0] == ("const", p)
+               and ir.dict_read_base(t[1][1], p) == ("param", "model_parameters"))
         dv = None
         if okb:
             dt = t[2][1]
